@@ -222,7 +222,7 @@ def _executor_table(p, led, tier, ex, exe, wd, ms, pt, tv, DT, IL, dts, ils, ilv
     D0, D1 = dts[0], dts[1]
     lo, hi = min(ils, key=lambda n: ilv[n]), max(ils, key=lambda n: ilv[n])
 
-    def run(o, modules, wires, handlers, external=None, enforce=True):
+    def run(o, modules, wires, handlers, external=None, enforce=True, then=None):
         """modules: {name: (inputs {port: (d,i)}, outputs {port: (d,i)})}; wires: [(sm, sp, dm, dp)];
         handlers: {name: 'raw' | ('label', d, i) | 'none' | 'missing-port'}"""
         it = Interp(p, o)
@@ -262,6 +262,17 @@ def _executor_table(p, led, tier, ex, exe, wd, ms, pt, tv, DT, IL, dts, ils, ilv
             ext.setdefault(m, {})[port_] = val if not isinstance(val, tuple) else it.instantiate(tv, [it.enum_member(DT, val[0]), it.enum_member(IL, val[1]), "ext"], {})
         try:
             r = it.call_fi(exe, [e, ext, enforce], {})
+            if then is not None:
+                # the same executor is used again after the diagram was rewired through its public API
+                more_wires, external2 = then
+                connect = p.find_method(wd, "connect")
+                for w in more_wires:
+                    it.call_fi(connect, [dg] + list(w), {})
+                del log[:]
+                ext2 = {}
+                for (m, port_), val in (external2 or {}).items():
+                    ext2.setdefault(m, {})[port_] = val
+                r = it.call_fi(exe, [e, ext2, enforce], {})
             order = r.fields.get("execution_order") if isinstance(r, Obj) else None
             return dict(kind="ok", log=log, order=list(order) if isinstance(order, list) else None)
         except PyRaise as pr:
@@ -368,6 +379,34 @@ def _executor_table(p, led, tier, ex, exe, wd, ms, pt, tv, DT, IL, dts, ils, ilv
                     P["C16-R5"].append(f"{tag}: raises {r['exc']}, not a wiring error")
                 if want == "raise-before-any" and names:
                     P["C16-R5"].append(f"{tag}: module(s) {names} ran before the diagram was refused")
+    # (4) the same executor after the diagram was rewired: the second execution is judged like a first one
+    hist = {
+        "a port fed externally, then wired (A.o → B.i added after a first run)":
+            ({"A": ({}, {"o": T}), "B": ({"i": T}, {})}, [], {"A": "raw", "B": "none"}, {("B", "i"): "raw"}, ([("A", "o", "B", "i")], None), "ok"),
+        "a second input wired later (S.o → B.j added after a first run)":
+            ({"A": ({}, {"o": T}), "S": ({}, {"o": T}), "B": ({"i": T, "j": T}, {})}, [("A", "o", "B", "i")], {"A": "raw", "S": "raw", "B": "none"}, {("B", "j"): "raw"}, ([("S", "o", "B", "j")], None), "ok"),
+        "a wire that closes a cycle is added after a first run":
+            ({"A": ({"x": T}, {"o": T}), "B": ({"i": T}, {"o": T})}, [("A", "o", "B", "i")], {"A": "raw", "B": "raw"}, {("A", "x"): "raw"}, ([("B", "o", "A", "x")], None), "raise"),
+        "a wire is added to a port that also gets an external value":
+            ({"A": ({}, {"o": T}), "B": ({"i": T}, {})}, [], {"A": "raw", "B": "none"}, {("B", "i"): "raw"}, ([("A", "o", "B", "i")], {("B", "i"): "raw"}), "either"),
+    }
+    for label, (mods, wires, handlers, ext1, then, want) in hist.items():
+        ncase += 1
+        for r in paths(mods, wires, handlers, ext1, True, then):
+            tag = f"history '{label}'"
+            delivered_ok(r, mods, tag)
+            names = [n for n, _ in r["log"]]
+            allw = list(wires) + list(then[0])
+            feeders = {m: {w[0] for w in allw if w[2] == m} for m in mods}
+            for idx, n in enumerate(names):
+                if not feeders[n] <= set(names[:idx]):
+                    P["C16-R4"].append(f"{tag}: on the second run {n} ran before its feeder(s) {sorted(feeders[n] - set(names[:idx]))} (wiring as it was before the change)")
+            if want == "ok" and (r["kind"] != "ok" or sorted(names) != sorted(mods)):
+                P["C16-R4"].append(f"{tag}: the rewired diagram is valid, but the second run gives {r['kind']} with runs {names} ({r.get('exc', '')})")
+            if want == "raise" and r["kind"] == "ok":
+                P["C16-R5"].append(f"{tag}: the second run returns a report instead of raising a wiring error (modules run: {names})")
+            if r["kind"] == "raise" and not r["wiring"]:
+                P["C16-R5"].append(f"{tag}: raises {r['exc']}, not a wiring error")
     titles = {"C16-R3": "DiagramExecutor.execute ▸ every delivered value has the port's type and at least its integrity; contradicting outputs are rejected",
               "C16-R4": "DiagramExecutor.execute ▸ every module runs exactly once, with all declared inputs, after its feeders",
               "C16-R5": "DiagramExecutor.execute ▸ unschedulable diagrams raise a wiring error (cycles, islands, fan-in, missing source / handler / outputs); pre-flight refusals run nothing"}
@@ -377,7 +416,7 @@ def _executor_table(p, led, tier, ex, exe, wd, ms, pt, tv, DT, IL, dts, ils, ilv
             led.fail(rid, title, where(exe, exe.node), f"{len(mine)} case(s), e.g. {mine[0]}", path=mine[:8],
                      witness="modules {src→sink} plus an unreachable 2-cycle {x⇄y}: execute() returns a report, x and y never run" if rid == "C16-R5" else None)
         else:
-            led.ok(rid, title, where(exe, exe.node), f"{ncase} interpreted cases (wire typing × labelled/raw outputs × enforcement; external inputs; 11 scheduling shapes)")
+            led.ok(rid, title, where(exe, exe.node), f"{ncase} interpreted cases (wire typing × labelled/raw outputs × enforcement; external inputs; 11 scheduling shapes; 4 rewire-then-run-again histories)")
     # keep one visible obligation per clause for the per-rule floors
     for rid, extra in (("C16-R3", ["handler outputs are checked against the declared port", "external inputs are coerced", "wire deliveries are typed", "wire deliveries respect integrity"]),
                        ("C16-R4", ["not run twice", "all declared inputs present"]), ("C16-R5", ["no-progress pass raises", "pre-flight refusals"])):
